@@ -42,7 +42,7 @@ Definition apply_op (x : db) (o : op) : db * out :=
       let lines := render_doc doc in
       let x' := load_fmt f lines x in
       (x', (if obs then Some (den x') else None, Some (triples_of doc), checksum lines,
-            [known_C13_n3 doc x; known_C13_reclean doc; known_C13_n3_literal doc; known_C13_n3_hash doc]))
+            [known_C13_n3 doc x; known_C13_reclean doc; known_C13_n3_literal doc; known_C13_n3_hash doc; known_C13_ttl_reclean doc]))
   end.
 
 Fixpoint run_ops (x : db) (ops : list op) : list out :=
